@@ -382,6 +382,17 @@ Proof.
   - intros H; inversion H; subst. repeat split. constructor.
 Qed.
 
+(* destination lookup of a packet with the TUN + IP header: a packet shorter than 24 bytes has no
+   destination session *)
+Definition route (st : sstate) (now : N) (ip : list N) : option nat :=
+  if (24 <=? length ip)%nat then find_user_by_ip st (le32_at ip 20) now else None.
+
+Lemma route_some st now ip t : route st now ip = Some t ->
+  (24 <= length ip)%nat /\ find_user_by_ip st (le32_at ip 20) now = Some t.
+Proof.
+  unfold route. destruct (24 <=? length ip)%nat eqn:E; [|discriminate]. apply Nat.leb_le in E. tauto.
+Qed.
+
 (* a packet queued or started for slot t (tunnel_tun and the client-to-client branch of
    handle_full_packet share this shape) *)
 Definition deliver (st : sstate) (t : nat) (data : list N) : sstate * list out :=
@@ -456,16 +467,16 @@ Lemma hfp_eq st now i : handle_full_packet unz st now i =
   let '(st1, outs) :=
     match unz raw with
     | None => (st, [])
-    | Some ip => match find_user_by_ip st (le32_at ip 20) now with
+    | Some ip => match route st now ip with
                  | None => (st, [OTun ip])
                  | Some t => deliver st t raw
                  end
     end in
   (upd st1 i clear_in, outs).
 Proof.
-  unfold handle_full_packet, hfp_raw, deliver, clear_in. cbv zeta.
+  unfold handle_full_packet, hfp_raw, deliver, clear_in, route. cbv zeta.
   destruct (unz _) as [ip|]; [|reflexivity].
-  destruct (find_user_by_ip _ _ _) as [t|]; [|reflexivity].
+  destruct (if (24 <=? length ip)%nat then find_user_by_ip st (le32_at ip 20) now else None) as [t|]; [|reflexivity].
   destruct (u_conn _); [reflexivity|]. destruct (_ =? 0); reflexivity.
 Qed.
 
@@ -474,7 +485,7 @@ Lemma hfp_spec st now i st' outs : handle_full_packet unz st now i = (st', outs)
   match unz (hfp_raw st i) with
   | None => outs = [] /\ forall j, j <> i -> getu st' j = getu st j
   | Some ip =>
-      match find_user_by_ip st (le32_at ip 20) now with
+      match route st now ip with
       | None => outs = [OTun ip] /\ forall j, j <> i -> getu st' j = getu st j
       | Some t => Forall (out_for t (getu st t)) outs /\
                   forall j, j <> i -> j <> t -> getu st' j = getu st j
@@ -484,9 +495,9 @@ Proof.
   rewrite hfp_eq. cbv zeta.
   assert (Hc : forall st1, sec_same st1 (upd st1 i clear_in)) by (intros st1; apply sec_same_upd; reflexivity).
   destruct (unz (hfp_raw st i)) as [ip|].
-  - destruct (find_user_by_ip st (le32_at ip 20) now) as [t|] eqn:Ef.
+  - destruct (route st now ip) as [t|] eqn:Er.
     + destruct (deliver st t (hfp_raw st i)) as [st1 o1] eqn:Ed. intros H; inversion H; subst.
-      destruct (fubi_some _ _ _ _ Ef) as (Ht & _).
+      destruct (route_some _ _ _ _ Er) as [_ Ef]. destruct (fubi_some _ _ _ _ Ef) as (Ht & _).
       destruct (deliver_spec _ _ _ _ _ Ht Ed) as (L & Ho & Hs & Hf).
       split; [eapply sec_same_trans; [eapply sec_same_slots; eassumption|apply Hc]|].
       split; [exact Hf|]. intros j Hi Hj. rewrite getu_upd_other by exact Hi. apply Ho, Hj.
@@ -613,13 +624,14 @@ Qed.
 Lemma tunnel_tun_eq st now pkt : tunnel_tun zc st now pkt =
   match pkt with
   | [] => (st, [])
-  | _ => match find_user_by_ip st (le32_at pkt 20) now with
+  | _ => match route st now pkt with
          | None => (st, [])
          | Some t => deliver st t (zc pkt)
          end
   end.
 Proof.
-  unfold tunnel_tun, deliver. destruct pkt as [|b pkt]; [reflexivity|].
+  unfold tunnel_tun, deliver, route. destruct pkt as [|b pkt]; [reflexivity|].
+  rewrite Nat.ltb_antisym. destruct (24 <=? length (b :: pkt))%nat; [|reflexivity]. cbv [negb].
   destruct (find_user_by_ip _ _ _) as [t|]; [|reflexivity]. cbv zeta.
   destruct (u_conn _); [reflexivity|].
   destruct (p_len (u_out (getu st t))); reflexivity.
@@ -629,7 +641,7 @@ Lemma tunnel_tun_spec st now pkt st' outs : tunnel_tun zc st now pkt = (st', out
   match pkt with
   | [] => st' = st /\ outs = []
   | _ =>
-    match find_user_by_ip st (le32_at pkt 20) now with
+    match route st now pkt with
     | None => st' = st /\ outs = []
     | Some t => length st' = length st /\ (forall j, j <> t -> getu st' j = getu st j) /\
                 sec (getu st' t) = sec (getu st t) /\ Forall (out_for t (getu st t)) outs
@@ -637,9 +649,9 @@ Lemma tunnel_tun_spec st now pkt st' outs : tunnel_tun zc st now pkt = (st', out
   end.
 Proof.
   rewrite tunnel_tun_eq. destruct pkt as [|b pkt]; [intros H; inv_pair H; split; reflexivity|].
-  destruct (find_user_by_ip st (le32_at (b :: pkt) 20) now) as [t|] eqn:Ef;
+  destruct (route st now (b :: pkt)) as [t|] eqn:Er;
     [|intros H; inv_pair H; split; reflexivity].
-  intros H. destruct (fubi_some _ _ _ _ Ef) as (Ht & _). exact (deliver_spec _ _ _ _ _ Ht H).
+  intros H. destruct (route_some _ _ _ _ Er) as [_ Ef]. destruct (fubi_some _ _ _ _ Ef) as (Ht & _). exact (deliver_spec _ _ _ _ _ Ht H).
 Qed.
 
 Lemma tunnel_tun_sec st now pkt st' outs : tunnel_tun zc st now pkt = (st', outs) ->
@@ -647,7 +659,7 @@ Lemma tunnel_tun_sec st now pkt st' outs : tunnel_tun zc st now pkt = (st', outs
 Proof.
   intros H. apply tunnel_tun_spec in H. destruct pkt as [|b pkt].
   - destruct H as [-> ->]. split; [apply sec_same_refl|constructor].
-  - destruct (find_user_by_ip st (le32_at (b :: pkt) 20) now) as [t|].
+  - destruct (route st now (b :: pkt)) as [t|].
     + destruct H as (L & Ho & Hs & Hf). split; [eapply sec_same_slots; eassumption|].
       revert Hf. apply Forall_imp. intros [] Hx; simpl in *; tauto.
     + destruct H as [-> ->]. split; [apply sec_same_refl|constructor].
